@@ -268,6 +268,17 @@ func (w *Walker) CondAtoms() (atoms []string) {
 				if _, isC := BoolConst(e); isC {
 					continue
 				}
+				if inner, _ := Not(e); true {
+					if il := w.boolHelper(inner, 0); il != nil {
+						for a := range il.atoms {
+							if !seen[a] {
+								seen[a] = true
+								atoms = append(atoms, a)
+							}
+						}
+						continue
+					}
+				}
 				n, _ := w.Atom(e)
 				if !seen[n] {
 					seen[n] = true
